@@ -63,6 +63,13 @@ func init() {
 	mutant(&Mutant{Name: "c06-peek-reuse-without-compaction", Property: "C06", File: "xml/buffer.go",
 		Old: "\t\t} else {\n\t\t\tbuf = z.buf\n\t\t}\n\t\tcopy(buf[:d], z.buf[z.pos:])\n", New: "\t\t\tcopy(buf[:d], z.buf[z.pos:])\n\t\t} else {\n\t\t\tbuf = z.buf\n\t\t}\n",
 		Rule: "R06.8", Construct: "unread tokens moved"})
+	mutant(&Mutant{Name: "c07-saved-lexeme-aliases-token", Property: "C07", File: "json/json.go",
+		Old: "orig = append(orig, text...) // minify.Number works in-place", New: "orig = text",
+		Rule: "R07.12", Construct: "the saved lexeme is a copy"})
+	mutant(&Mutant{Name: "c07-saved-lexeme-hoisted", Property: "C07", File: "json/json.go",
+		Old: "\t\t\tvar orig []byte\n", New: "",
+		Old2: "\tskipComma := true\n", New2: "\tskipComma := true\n\tvar orig []byte\n",
+		Rule: "R07.12", Construct: "belongs to the current token"})
 	mutant(&Mutant{Name: "c07-zero-restored-blindly", Property: "C07", File: "json/json.go",
 		Old: "\t\t\t\tif orig != nil && len(orig) <= len(text) {\n\t\t\t\t\ttext = orig // the leading zero", New: "\t\t\t\tif false {\n\t\t\t\t\ttext = orig // the leading zero",
 		Rule: "R07.11", Construct: "byte added#1"})
@@ -581,7 +588,7 @@ func evalBytePred(info *types.Info, e ast.Expr, v string, b int64) (bool, bool) 
 func runC07(c *Ctx) {
 	runC07own(c)
 	// JSON numbers are rewritten by minify.Number: its value-level shape rules are necessary for `numerically equal`
-	c.alsoUnder(map[string]string{"R08.3": "R07.4", "R08.4": "R07.5", "R08.5": "R07.6", "R08.6": "R07.7", "R08.7": "R07.8", "R08.8": "R07.9", "R08.9": "R07.10"}, func(construct string) bool {
+	c.alsoUnder(map[string]string{"R08.3": "R07.4", "R08.4": "R07.5", "R08.5": "R07.6", "R08.6": "R07.7", "R08.7": "R07.8", "R08.8": "R07.9", "R08.9": "R07.10", "R08.10": "R07.13"}, func(construct string) bool {
 		return strings.Contains(construct, "minify.Number") || strings.HasPrefix(construct, "floor/")
 	}, func() { runC08(c) })
 }
@@ -816,6 +823,126 @@ func runC07own(c *Ctx) {
 			return true
 		})
 		return found
+	}
+	// R07.12: what is consulted, and written instead, is this token's own lexeme
+	const r12 = "R07.12"
+	c.R.Rule(r12, "the saved input of R07.11 must be the lexeme of the token at hand, unharmed: (a) it is a copy — every assignment to a witness slice is a copying construct (append(<itself, itself[:0] or nil>, text...), bytes.Clone / parse.Copy, a conversion through string), because minify.Number rewrites its argument in place (`orig = text` keeps the rewritten bytes: `[1e-3]` → `[.001]`); (b) it is this token's — on every path from the fetch of a token (the assignment of text from the parser) to a read of a witness, the witness is assigned: a buffer hoisted out of the loop still holds the previous number (`[1e2, 0.25]` → `[100,1e2]`)")
+	var fetch *flow.Node
+	for _, n := range g.Nodes {
+		if as, ok := n.Stmt.(*ast.AssignStmt); ok && n.Kind == flow.KStmt && as.Tok == token.DEFINE {
+			for _, l := range as.Lhs {
+				if id, ok := l.(*ast.Ident); ok && id.Name == textName {
+					fetch = n
+				}
+			}
+		}
+	}
+	nW := 0
+	for o := range witness {
+		o := o
+		nW++
+		assigns := func(y *flow.Node) bool {
+			if y.Kind != flow.KStmt {
+				return false
+			}
+			if y.Spec != nil {
+				for _, nm := range y.Spec.Names {
+					if info.Defs[nm] == o {
+						return true
+					}
+				}
+			}
+			if as, ok := y.Stmt.(*ast.AssignStmt); ok {
+				for _, l := range as.Lhs {
+					if id, ok := l.(*ast.Ident); ok && info.ObjectOf(id) == o {
+						return true
+					}
+				}
+			}
+			return false
+		}
+		reads := func(y *flow.Node) bool {
+			a := y.Ast()
+			if a == nil || y.Kind == flow.KRange {
+				return false
+			}
+			var root ast.Node = a
+			if y.Kind == flow.KCond || y.Kind == flow.KCase {
+				root = y.Expr
+			}
+			hit := false
+			ast.Inspect(root, func(q ast.Node) bool {
+				if as, ok := q.(*ast.AssignStmt); ok {
+					// only the right-hand sides read
+					for _, r := range as.Rhs {
+						ast.Inspect(r, func(q2 ast.Node) bool {
+							if id, ok := q2.(*ast.Ident); ok && info.Uses[id] == o {
+								hit = true
+							}
+							return true
+						})
+					}
+					return false
+				}
+				if id, ok := q.(*ast.Ident); ok && info.Uses[id] == o {
+					hit = true
+				}
+				return true
+			})
+			return hit
+		}
+		if fetch == nil {
+			c.R.Unres(r12, "json.Minifier.Minify/token fetch", c.pos(fd), "the assignment of the token text from the parser was not found")
+			break
+		}
+		// a read that is itself part of an assignment to the witness (append(orig[:0], …)) counts as a read of the old value
+		p := g.Path(flow.Search{From: []*flow.Node{fetch}, Goal: reads, Avoid: func(y *flow.Node) bool { return assigns(y) && !reads(y) }})
+		c.R.Check(p == nil, r12, "json.Minifier.Minify/"+c.P.NameOf(o)+" belongs to the current token", c.pos(fetch.Ast()), "assigned after every fetch before it is read", "the saved lexeme can be read for a token for which it was not assigned: it still holds an earlier number, which is then written in place of this one: "+pathStr(c, g, p))
+	}
+	c.R.Floor(r12, "witness variables", nW, 1)
+	// (a) the witness slices are copies
+	{
+		aliased := ""
+		for _, y := range g.Nodes {
+			as, ok := y.Stmt.(*ast.AssignStmt)
+			if !ok || y.Kind != flow.KStmt {
+				continue
+			}
+			for i, l := range as.Lhs {
+				id, ok := l.(*ast.Ident)
+				if !ok || !witness[info.ObjectOf(id)] || len(as.Rhs) != len(as.Lhs) {
+					continue
+				}
+				if !isByteSlice(info.TypeOf(id)) {
+					continue
+				}
+				// the assigned expression must be a copying construct: append(<nil or witness[:0]>, text...), or a conversion through string
+				r := ast.Unparen(as.Rhs[i])
+				ok2 := false
+				if call, isC := r.(*ast.CallExpr); isC {
+					if fid, isId := call.Fun.(*ast.Ident); isId && fid.Name == "append" && len(call.Args) == 2 && call.Ellipsis.IsValid() {
+						first := nospace(str(call.Args[0]))
+						if first == id.Name || first == id.Name+"[:0]" || first == "[]byte(nil)" || first == "[]byte{}" || first == "nil" {
+							ok2 = true
+						}
+					}
+					if tv, isT := info.Types[call.Fun]; isT && tv.IsType() {
+						if inner, isC2 := ast.Unparen(call.Args[0]).(*ast.CallExpr); isC2 {
+							if tv2, isT2 := info.Types[inner.Fun]; isT2 && tv2.IsType() {
+								ok2 = true // []byte(string(text))
+							}
+						}
+					}
+					if cn := calleeName(info, call); cn == "bytes.Clone" || cn == load.ParseMod+".Copy" || cn == "slices.Clone" {
+						ok2 = true
+					}
+				}
+				if !ok2 {
+					aliased = str0(as)
+				}
+			}
+		}
+		c.R.Check(aliased == "", r12, "json.Minifier.Minify/the saved lexeme is a copy", c.pos(numN.Ast()), "assigned from a copying construct (append to itself/nil, Clone, conversion)", "the saved lexeme is assigned by `"+aliased+"`, which shares the token's array: minify.Number rewrites that array in place, so the `original` written later is the rewritten number without its leading zero")
 	}
 	for i, n := range zeroWriteNodes(c, pk, g) {
 		n := n
